@@ -225,6 +225,12 @@ def _len(ex, args, kwargs, node):
     if isinstance(a, VFalseOr):
         ex.oblige("noraise.len_of_False", node, z3.Not(a.isfalse))
         return _len(ex, [a.val], kwargs, node)
+    if isinstance(a, VOptional):
+        ex.oblige("noraise.len_of_None", node, z3.Not(a.isnone))
+        return _len(ex, [a.val], kwargs, node)
+    if isinstance(a, VStr):
+        ex.st.assume(strlen(a.t) >= 0)
+        return VInt(strlen(a.t))
     raise Unsupported(f"len of {a.ty}")
 
 
@@ -235,6 +241,10 @@ def _int(ex, args, kwargs, node):
         return a
     if isinstance(a, VBool):
         return VInt(z3.If(a.t, 1, 0))
+    if isinstance(a, VStr):
+        # int(s): ValueError unless s is an integer literal; otherwise the number it denotes
+        ex.oblige("noraise.int_of_str", node, is_int_literal(a.t))
+        return VInt(int_of_str(a.t))
     raise Unsupported(f"int() of {a.ty}")
 
 
